@@ -57,6 +57,8 @@ def gen_cases(rng, tier):
             pts.append((x, y))
         ops = poly_ops(pts, close=rng.random() < 0.3, grid=grid)
         cases.append(("hair_spans", [w, h] + ops))
+        if i % 2 == 0:
+            cases.append(("hair_aa", [w, h] + ops))
     m = 500 if tier == "quick" else 8000
     for i in range(m):
         w, h = rng.choice([(12, 12), (24, 17), (1, 1), (2, 2), (2, 8), (3, 3), (40, 40)])
@@ -145,6 +147,16 @@ def oracle(suite, args, out):
                 if x < l or x > r or y < t or y > b:
                     return "line_clipper::intersect returned the point (%r, %r) outside the clip %r" % (x, y, (l, t, r, b))
         return None
+    if suite == "hair_aa":
+        if "-77" in out.split():
+            return "the anti-aliased hairline emitted a blit_h / blit_rect"
+        o = ints(out)
+        w, h = args[0], args[1]
+        if o and o[0] >= 0 and len(o) % 3 == 0:
+            for x, y, a in zip(o[0::3], o[1::3], o[2::3]):
+                if not (0 <= x < w and 0 <= y < h):
+                    return "anti-aliased hairline coverage at (%d,%d) outside the %dx%d pixmap" % (x, y, w, h)
+        return None
     if suite == "hair_spans":
         if "-77" in out.split():
             return "hairline emitted a blit other than a 1-pixel blit_h"
@@ -186,6 +198,8 @@ def nontrivial_tag(suite, args, out):
     o = out.split()
     if suite == "line_clip":
         return "clipped" if len(o) == 4 else None
+    if suite == "hair_aa":
+        return "aa-contribs" if len(o) >= 3 and o[0].lstrip("-").isdigit() and int(o[0]) >= 0 else None
     if suite == "hair_spans":
         return "blits" if len(o) >= 2 and o[0].lstrip("-").isdigit() and int(o[0]) >= 0 else None
     return "px" if len(o) >= 3 and o[0].isdigit() and int(o[0]) > 0 else None
